@@ -69,7 +69,7 @@ def run_one(item):
 
 
 cands = candidates()
-random.seed(12345)
+random.seed(int(os.environ.get("CMUT_SEED", "12345")))
 random.shuffle(cands)
 cands = cands[:limit]
 print("mutants:", len(cands), "of", rel, flush=True)
